@@ -152,9 +152,9 @@ def run(vc):
     vc.native_standins.append(dict(
         name="several sources at one node",
         bound="fixed networks: two different synchronous generators at one bus (both orders in net.gen, and on two buses fused by a bus-bus "
-              "switch); an asynchronous / doubly-fed sgen at the bus of a network feeder; two network feeders at one node: ikss at that node",
+              "switch); an asynchronous / doubly-fed sgen at the bus of a network feeder; two network feeders at one node: ikss at that node; peak current with kappa method B for net.sn_mva = 1 / 10 / 100",
         script="import subprocess, sys\nr = [subprocess.run([sys.executable, '-W', 'ignore', '-c', f'from replaylib.shortcircuit import {f}; {f}()']).returncode "
-               "for f in ('main_gens_at_one_bus', 'main_sgen', 'main_feeders')]\nsys.exit(1 if 1 in r else max(r))\n"))
+               "for f in ('main_gens_at_one_bus', 'main_sgen', 'main_feeders', 'main_kappa_b')]\nsys.exit(1 if 1 in r else max(r))\n"))
 
 
 def classify(ob, model):
